@@ -882,3 +882,52 @@ func TOTPCode(secret string) string {
 	c, _ := totp.GenerateCode(secret, time.Now())
 	return c
 }
+
+// SeedUser plants an account in a reachable state directly in storage (same op for the model).
+func (m *M) SeedUser(pid, pw string, confirmed bool, attempts int, last, locked time.Duration, hasLast, hasLocked bool, otps []string, totpSecret, sms string, rec []string) {
+	u := &world.User{PID: pid, Email: pid, Confirmed: confirmed, AttemptCount: attempts, TOTPSecretKey: totpSecret, SMSPhoneNumber: sms}
+	if pw != "" {
+		h, _ := bcrypt.GenerateFromPassword([]byte(pw), bcrypt.MinCost)
+		u.Password = string(h)
+		m.learnPW(pw)
+		m.bc[u.Password] = wire.Hex(pw)
+	}
+	lastS, lockedS := "z", "z"
+	if hasLast {
+		u.LastAttempt = m.W.Epoch.Add(last)
+		lastS = strconv.FormatInt(int64(last), 10)
+	}
+	if hasLocked {
+		u.Locked = m.W.Epoch.Add(locked)
+		lockedS = strconv.FormatInt(int64(locked), 10)
+	}
+	var oh []string
+	for _, o := range otps {
+		m.learn(o, "otp")
+		oh = append(oh, shaB64(o))
+	}
+	u.OTPs = strings.Join(oh, ",")
+	var rh []string
+	for _, c := range rec {
+		h, _ := bcrypt.GenerateFromPassword([]byte(c), bcrypt.MinCost)
+		rh = append(rh, string(h))
+		m.bc[string(h)] = wire.Hex(c)
+		m.Secrets[c] = "recovery-code"
+	}
+	u.RecoveryCodes = strings.Join(rh, ",")
+	m.W.Store.Users[pid] = u
+	kv := []string{"pid=" + wire.Hex(pid), "pw=" + wire.Hex(pw), "conf=" + wire.Bool(confirmed), fmt.Sprintf("att=%d", attempts), "last=" + lastS, "locked=" + lockedS}
+	if len(otps) > 0 {
+		kv = append(kv, "otps="+hexList(otps))
+	}
+	if totpSecret != "" {
+		kv = append(kv, "totp="+wire.Hex(totpSecret))
+	}
+	if sms != "" {
+		kv = append(kv, "sms="+wire.Hex(sms))
+	}
+	if len(rec) > 0 {
+		kv = append(kv, "rec="+hexList(rec))
+	}
+	m.Out.Add("m seed "+strings.Join(kv, " "), "ok "+m.StoreLine())
+}
